@@ -258,7 +258,7 @@ def main(tier, replay, t0):
             judge(rec, viol, stats, "directed")
     directed_n = len(jobs)
 
-    count = 150000 if tier == "quick" else 3000000
+    count = 150000 if tier == "quick" else 8000000
     files = run_fuzz(binp, corpus, work, count, core.NCPU)
     total = 0
     distinct = set()
@@ -334,7 +334,7 @@ def run_asan(corpus, work):
     for s in range(shards):
         op = os.path.join(outdir, "fuzz.%d.jsonl" % s)
         procs.append(subprocess.Popen(
-            [binp, "fuzz", corpus, op, "--seed", str(core.seed() + 1000), "--count", "60000",
+            [binp, "fuzz", corpus, op, "--seed", str(core.seed() + 1000), "--count", "400000",
              "--shard", "%d/%d" % (s, shards)],
             env=core.env(ASAN_OPTIONS="halt_on_error=1:abort_on_error=0:detect_leaks=0:"
                                       "log_path=%s" % logbase),
@@ -358,5 +358,5 @@ def run_asan(corpus, work):
                     sig += ":" + line.split(" in ")[1].split()[0][:60]
                     break
             reports[sig] = txt
-    return {"built": True, "mutants": 60000, "exit_codes": sorted(set(rcs)),
+    return {"built": True, "mutants": 400000, "exit_codes": sorted(set(rcs)),
             "report_files": len(reports), "reports": reports}
